@@ -40,7 +40,7 @@ fn nonce_of(proto: Proto, token: &str) -> Option<Vec<u8>> {
 
 fn judge(run: &Run, obs: &[Obs]) -> Judgement {
     let mut j = oracle::judge("C10", run, obs);
-    let observe = run.events.iter().any(|e| matches!(e, Op::Build { observe: true, .. }));
+    let observe = run.events.iter().any(|e| matches!(e, Op::Build { observe: true, .. } | Op::DrawKeys { .. }));
     if observe {
         add_probe(&mut j, "observe_arm_history");
         return j;
@@ -114,6 +114,12 @@ fn gen(ctx: &GenCtx, i: u64) -> Option<Run> {
     let mut rb = RunBuilder::new("C10", "issuer-history", ctx.verif_seed, i);
     let now = gen_now(&mut r);
     let long_n = if ctx.tier == Tier::Quick { 4096 } else { 100_000 };
+    if i == 16 {
+        // observe arm, entropy source itself: enough direct draws of the builders' nonce material that a source
+        // with no more than ~36 bits of entropy repeats with overwhelming probability
+        rb.push(Op::DrawKeys { n: if ctx.tier == Tier::Quick { 400_000 } else { 4_000_000 } });
+        return Some(rb.finish());
+    }
     let (proto, layer, n, observe, faulty) = if i < 16 {
         let proto = LOCALS[(i % 4) as usize];
         let layer = if (i / 4) % 2 == 0 { Layer::Generic } else { Layer::Batteries };
